@@ -11,15 +11,15 @@ open Generated
 /-- A non-compacting worker whose expiry is disabled (`timeoutRevision = 0`). -/
 def WCfg.Plain (c : WCfg) : Prop := c.compact = false ∧ c.timeout = 0
 
-theorem expireStep_plain {c : WCfg} (hc : c.Plain) (r : Rec) : expireStep c r = none := by
-  simp [expireStep, hc.2]
+theorem expireStep_plain {c : WCfg} (hc : c.Plain) (live : Bytes) (r : Rec) : expireStep c live r = none := by
+  simp [expireStep, expiry, hc.2]
 
 /-- Normal form of one iteration of a plain worker. -/
 theorem workerStep_plain {c : WCfg} (hc : c.Plain) (p : Prev) (r : Rec) :
     workerStep c p r =
       if r.rev > c.R then ([], p)
       else (if r.key != p.key then emitPrev p else [], ⟨r.key, r.rev, r.val⟩) := by
-  simp [workerStep, expireStep_plain hc, hc.1]
+  simp [workerStep, hc.1]
 
 theorem emitPrev_init : emitPrev {} = [] := by decide
 
